@@ -1,13 +1,48 @@
-(** Property C12 — statements only. Each theorem is closed by [exact] of a lemma
-    proved elsewhere and followed by [Print Assumptions]. *)
-From CR Require Import Base Atomic Machine LinksFacts HeapFacts TraceFacts Local.
+(** Property C12 — handle-consuming APIs stay sound on adopted objects. *)
+From Coq Require Import Permutation.
+From CR Require Import Base Atomic Machine LinksFacts HeapFacts TraceFacts TraceTotal Local StackBound
+  Termination Perm StdRc StdRefine Tokens InvDef InvLemmas ActBase ActHandles ActAdopt ActMove ActConsume
+  StepFrames StepPanic Purge GroupOps DropDec Group DropLast StepInv RunInv Consequences Common.
 Local Open Scope N_scope.
 
-Theorem C12_unadopt_partial :
-  forall h a b h',
-  heap_wf h -> unadopt h false a b = Ok h' ->
-  lget h' a (b, Fwd) = lget h a (b, Fwd) - 1 /\
-  lget h' b (a, Bwd) = lget h b (a, Bwd) - 1.
-Proof. exact unadopt_counts. Qed.
-Print Assumptions C12_unadopt_partial.
+(** try_unwrap and make_mut (all three branches), on any object of any adoption
+    graph: never fault, never abort, keep the invariant — in particular no
+    table keeps a record naming the allocation that was given up (TblInv:
+    records name live objects only) and the value is moved exactly once *)
+Theorem C12_try_unwrap :
+  forall r dst s self pc k,
+  Inv s (ctx self pc k) -> act_post_strict self pc k (exec_act s self (ATryUnwrap r dst)).
+Proof. exact try_unwrap_strict. Qed.
+Print Assumptions C12_try_unwrap.
 
+Theorem C12_make_mut :
+  forall r s self pc k,
+  Inv s (ctx self pc k) -> act_post_strict self pc k (exec_act s self (AMakeMut r)).
+Proof. exact make_mut_strict. Qed.
+Print Assumptions C12_make_mut.
+
+Theorem C12_get_mut_raw_and_counts :
+  forall r dst, act_preserves (AGetMut r) /\ act_preserves (AIntoRaw r) /\ act_preserves (AFromRaw r) /\
+    act_preserves (AIncStrong r dst) /\ act_preserves (ADecStrong r).
+Proof.
+  exact (fun r dst => conj (act_get_mut r) (conj (act_into_raw r) (conj (act_from_raw r)
+           (conj (act_inc_strong r dst) (act_dec_strong r))))).
+Qed.
+Print Assumptions C12_get_mut_raw_and_counts.
+
+(** the peers are unlinked when the allocation is given up *)
+Theorem C12_released_allocation_is_unlinked :
+  forall h o b t h3, TblInv h -> Purge.live_has_table h -> no_foreign_loop h o ->
+  getb h o = Ok b -> links b = Some t -> release_links h o = Ok h3 ->
+  TblInv h3 /\ (forall a kd, lget h3 a (o, kd) = 0) /\ (forall l, lget h3 o l = 0).
+Proof. exact release_links_TblInv. Qed.
+Print Assumptions C12_released_allocation_is_unlinked.
+
+(** every later history on the former peers: the invariant is the induction
+    hypothesis of all other theorems *)
+Theorem C12_later_histories :
+  forall fuel h s, Inv s [] -> hist_ok fuel s h = true ->
+  Forall (fun r => match r with OHalt e => e = HAbort | _ => True end) (snd (run_history fuel s h)) /\
+  (forallb completed (snd (run_history fuel s h)) = true -> Inv (fst (run_history fuel s h)) []).
+Proof. exact (fun fuel h => run_history_inv fuel h). Qed.
+Print Assumptions C12_later_histories.
